@@ -124,7 +124,11 @@ class Check(PropertyCheck):
                                     f"{op_id} during the notification"))
                 for i in before_ids:
                     if impl.kinds[i] == "history":
-                        ctx["expected_hist"].setdefault(i, []).append(op_id)
+                        if i not in ctx["expected_hist"] and i in ctx.setdefault("dormant_hist", {}):
+                            # re-subscribed: it keeps what it recorded while it was subscribed before
+                            ctx["expected_hist"][i] = ctx["dormant_hist"].pop(i)
+                        if i in ctx["expected_hist"]:
+                            ctx["expected_hist"][i].append(op_id)
             elif new:
                 res.append(("rejected-notified", f"rejected `{line}` produced observer calls {new}"))
         elif cmd == "reset":
@@ -134,6 +138,7 @@ class Check(PropertyCheck):
             for i in before_ids:
                 if impl.kinds[i] == "history":
                     ctx["expected_hist"][i] = []
+                    ctx.setdefault("dormant_hist", {}).pop(i, None)
         elif new:
             res.append(("spurious", f"`{line}` produced observer calls {new}"))
         if cmd == "obs":
@@ -166,7 +171,8 @@ class Check(PropertyCheck):
                 cur_ids.append(idx)
         for i in list(ctx["expected_hist"]):
             if i not in cur_ids:
-                ctx["expected_hist"].pop(i)       # unsubscribed: no claim any more
+                # unsubscribed: nothing is claimed while it is away, but it keeps its record
+                ctx.setdefault("dormant_hist", {})[i] = ctx["expected_hist"].pop(i)
         for i in cur_ids:
             if impl.kinds[i] == "history" and i not in ctx["expected_hist"] and cmd in ("obs", "cog") and out == str(i) \
                     and i not in before_ids and i == len(impl.heap) - 1 and not ctx.get("seen_" + str(i)):
